@@ -39,6 +39,7 @@ type item struct {
 	text string // full SMT command
 	syms []string
 	tag  string
+	blk  int // index of the root function's block being encoded when the item was created (-1: none)
 }
 
 // Ctx accumulates the logical context of one verification unit in program order.
@@ -46,9 +47,10 @@ type Ctx struct {
 	items  []item
 	names  map[string]int // symbol -> item index defining it
 	nextID int
+	curBlk int
 }
 
-func newCtx() *Ctx { return &Ctx{names: map[string]int{}} }
+func newCtx() *Ctx { return &Ctx{names: map[string]int{}, curBlk: -1} }
 
 func quoteSym(s string) string {
 	simple := true
@@ -105,7 +107,7 @@ func (c *Ctx) assert(tag, body string) {
 	if body == "true" {
 		return
 	}
-	c.items = append(c.items, item{kind: itAssert, text: fmt.Sprintf("(assert %s)", body), syms: symsOf(body), tag: tag})
+	c.items = append(c.items, item{kind: itAssert, text: fmt.Sprintf("(assert %s)", body), syms: symsOf(body), tag: tag, blk: c.curBlk})
 }
 
 func (c *Ctx) raw(name, text string) {
